@@ -213,6 +213,26 @@ func (e *Engine) cmdCheck(prop, tier, evid, known, replayDir string, replay bool
 		// vacuity guard: the assumptions of the function (preconditions, callee postconditions, invariants) are consistent
 		all = append(all, fc.canary())
 	}
+	// lemmas: those tagged with the property and those cited by the functions under contract
+	lemmaSet := map[string]bool{}
+	for _, l := range e.cs.Lemmas {
+		if hasTag(l.Tags, prop) {
+			lemmaSet[l.Name] = true
+		}
+	}
+	for _, fc := range fcs {
+		for _, n := range fc.lemmasUsed {
+			lemmaSet[n] = true
+		}
+	}
+	for _, n := range sortedKeys(lemmaSet) {
+		lfc, err := e.lemmaCtx(e.lemma(n))
+		if err != nil {
+			e.toolErrors = append(e.toolErrors, fmt.Sprintf("lemma %s: %v", n, err))
+			continue
+		}
+		all = append(all, lfc.obls...)
+	}
 	// known-finding regions: the obligation must hold outside the region
 	for _, f := range findings {
 		if f.Kind != "finding" || f.Property != prop || f.Region == "" {
